@@ -8,9 +8,20 @@ whose bit 2 differs from that tag; a null uplink frame (header & 0xF3 == 0xF3) c
 transmission has one of three outcomes chosen exhaustively: delivered and acknowledged, uplink lost, delivered but
 acknowledgement lost; at every transmission the application may or may not submit its next packet.
 
-Bounded (stated per contract): number of transmissions explored exhaustively.  The one-step function
-`_send_packet_safe` is proved for all inputs.  Not covered: true concurrency between application threads and the radio
-thread (they meet only in queue.Queue, assumed FIFO and thread safe); RadioLinkStatistics is replaced by a stub.
+Bounded (stated per contract): number of transmissions explored exhaustively in the `delivery.*` contracts (these give replayable
+counterexamples); `delivery.inductive` removes that bound with an inductive invariant of the service loop (any number of transmissions,
+packets and any configured loss count N), its failures are reported as undecided auxiliary obligations (exit 2), not as replays; it finds the loop and its locals by their use, not their names.  The
+one-step function `_send_packet_safe` is proved for all inputs.
+
+Further down: the real RadioLinkStatistics inside the loop (numpy's diff / exp / sum replaced by a stub: assumed total), a fourth outcome
+"the dongle reports no status", pause() / restart() / close() / reconnect as explicit schedules (the application's call is made from
+inside a radio transaction, i.e. while the radio thread is busy; it continues at once unless it is held by an UNTIMED Thread.join, in
+which case it continues when run() has returned), the shared dongle down to the USB vendor requests, RadioManager, Crazyradio.__init__.
+
+Not covered: true concurrency between application threads and the radio thread other than those schedules (they meet only in
+queue.Queue, assumed FIFO and thread safe; the application submits only when the hand-off queue has room); an exception raised by the
+dongle object itself (reported as a link failure by the loop, outside the property); USB enumeration, PCAP logging, the firmware-driven
+scan (dead code), string formatting.  Known to fail on the unchanged tree (thorough tier only): pause-restart.accepted-before-pause.
 """
 from pyvc.api import contract
 
@@ -397,3 +408,1001 @@ def instance_ids(c):
     c.ensure('each-live-link-is-served-through-its-own-queue', 'is_same(shared._rsp_queues[b._instance_id], b._rsp_queue) and '
              'is_same(shared._rsp_queues[cc._instance_id], cc._rsp_queue) and len(shared._rsp_queues) == 2')
     c.ensure('dongle-kept-open-for-the-remaining-link', "len(sent('dongle.close')) == 0")
+
+
+# ------------------------------------------------------------------------- the statistics hook that runs inside the radio loop
+
+RLS = 'cflib.crtp.radio_link_statistics'
+RLS_FUNCS = [RLS + ':RadioLinkStatistics.update', RLS + ':RadioLinkStatistics._update_link_quality', RLS + ':RadioLinkStatistics._update_rssi',
+             RLS + ':RadioLinkStatistics._update_rate_and_congestion']
+
+
+def np_stub(c):
+    """numpy is outside the interpreter's subset and the VALUE of the averaged RSSI is irrelevant to C01: np.diff / np.exp / np.sum are
+    assumed to be total on the equal-length numeric deques they are given (replaced in both back ends)."""
+    return c.patch(RLS + ':np', c.ext('np', returns={'diff': 0.0, 'exp': 1, 'sum': 1.0}))
+
+
+def stats_clock(c, steps=(0.0, 0.25), n=400):
+    """the wall clock the statistics read: either so fast that no rate report is due, or a report is due at every acknowledgement
+    (concrete readings: symbolic float clocks make every path a floating-point solver problem)"""
+    step = c.choice('clock_step', list(steps)) if len(steps) > 1 else steps[0]
+    c.virtual_time(clock=[1000.0 + step * i for i in range(n)])
+
+
+def _stats_update(n):
+    @contract('C01', 'link_statistics.update.len%d' % n, RLS_FUNCS,
+              clause='whatever pattern of acknowledgements occurs the radio loop keeps delivering: the statistics hook that runs inside the radio loop after '
+                     'every acknowledged transmission returns normally for every acknowledgement payload (an exception there ends the radio thread '
+                     'silently: no more packets either way and no link error)',
+              bounded='acknowledgement payload of %d bytes (0..4 and 32 enumerated), every byte value, every retry count, with and without an uplink '
+                      'packet; two consecutive updates on one object; numpy replaced by a stub' % n)
+    def k(c):
+        stats_clock(c)
+        np_stub(c)
+        st = c.new(RLS + ':RadioLinkStatistics', c.ext('stats_cb'))
+        pk = c.new(STK + ':CRTPPacket', 0x30, c.bytes('up', 1))
+        out = pk if c.choice('uplink', [True, False]) else None
+        for i in range(2):
+            d = c.bytes('d%d' % i, n)
+            c.int('retry%d' % i, 0, 15)
+            # the loop only calls the hook for acknowledged transmissions
+            ack = c.obj(ACK, ack=True, data=d, powerDet=False, retry=c.get('retry%d' % i))
+            c.call((st, 'update'), ack, out)
+            c.ensure('update-%d-returns' % i, 'raised is None')
+    return k
+
+
+for _n in (0, 1, 2, 3, 4, 32):
+    _stats_update(_n)
+
+
+# ------------------------------------------------------------------------- the whole driver: real statistics, pause / restart / close / reconnect
+
+class Peer:
+    """The assumed safelink peer of the module docstring behind a lossy radio, reusable over several radio threads.  Control state is
+    concrete (one contract run = one path), payloads are symbolic.  A safelink request (ff 05 01) that reaches the peer resets its
+    two bits (nRF51 firmware); `downs` are names of complete downlink packets (header + payload) in the spec namespace."""
+
+    def __init__(self, c, downs=(), name=''):
+        self.c, self.downs, self.name = c, list(downs), name
+        self.exp_up = self.tag = self.offer = 0
+        self.accepted = []          # names of the non-null uplink frames the peer took, in order
+        self.requests = 0           # safelink requests that reached the peer
+
+    def handle(self, frame, outcome):
+        c = self.c
+        if outcome == 'uplink-lost':
+            return mk_ack(c, False, ())
+        if outcome == 'no-status-not-sent':             # the dongle did not answer over USB (Crazyradio.send_packet gives None)
+            return None
+        c.let('frame', frame)
+        if outcome == 'no-status-sent':                 # ... but the frame had gone out
+            self.handle(frame, 'ack-lost')
+            return None
+        if c.concretize('len(frame) == 3 and frame[0] == 0xff and frame[1] == 0x05 and frame[2] == 0x01'):
+            self.exp_up = self.tag = 0
+            self.requests += 1
+            return mk_ack(c, True, c.snapshot('good', 'bytes([0xff, 0x05, 0x01])')) if outcome == 'acked' else mk_ack(c, False, ())
+        f_up = c.concretize('(frame[0] >> 3) & 1')
+        f_down = c.concretize('(frame[0] >> 2) & 1')
+        is_null = c.concretize('(frame[0] & 0xF3) == 0xF3')
+        if self.offer < len(self.downs) and f_down != self.tag:
+            self.offer += 1
+            self.tag ^= 1
+        if f_up == self.exp_up:
+            self.exp_up ^= 1
+            if not is_null:
+                nm = '%sacc%d' % (self.name, len(self.accepted))
+                c.snapshot(nm, 'tuple(frame)')
+                self.accepted.append(nm)
+        if outcome == 'ack-lost':
+            return mk_ack(c, False, ())
+        if self.offer < len(self.downs):
+            d = self.downs[self.offer]
+            nm = c.snapshot('%sackdata%d' % (self.name, self.offer), 'bytes([(%s[0] & 0xF3) | %d]) + %s[1:]' % (d, (self.exp_up << 3) | (self.tag << 2), d))
+            return mk_ack(c, True, nm)
+        return mk_ack(c, True, ())
+
+
+def _real_statistics(n):
+    @contract('C01', 'delivery.real-statistics.len%d' % n,
+              [RD + ':_RadioDriverThread.run', RD + ':_RadioDriverThread._send_packet_safe', RD + ':RadioDriver.receive_packet',
+               STK + ':CRTPPacket.set_header', STK + ':CRTPPacket._set_data'] + RLS_FUNCS,
+              clause='every packet the Crazyflie queues for the host comes out of receive_packet exactly once and in order, and the loop goes on serving '
+                     'the uplink afterwards, whatever the packet is: any port, channel and payload, also link-control packets of any length, with the '
+                     'REAL link statistics running inside the radio loop',
+              bounded='loss-free link, 4 transmissions after negotiation, two downlink packets of %d bytes each (1..4 and 32 enumerated) with every '
+                      'byte value, one uplink packet (31-byte payload in the 32-byte case, else 2); numpy replaced by a stub' % n)
+    def k(c):
+        stats_clock(c)
+        np_stub(c)
+        c.bytes('D0', n), c.bytes('D1', n)
+        # the uplink packet is built the way applications build it: empty packet, then port / channel / data
+        up = c.new(STK + ':CRTPPacket')
+        c.int('port', 0, 15), c.int('chan', 0, 3)
+        c.require('not (port == 15 and chan == 3)')          # that header is the null packet of the link layer
+        c.invoke((up, 'set_header'), c.get('port'), c.get('chan'))
+        c.set(up, 'data', c.bytes('u0', 31 if n == 32 else 2))       # 31 bytes: the largest CRTP payload
+        peer = Peer(c, ['D0', 'D1'])
+        stop = c.raiser('StopLoop')
+        drv = c.new(RD + ':RadioDriver')
+        inq, outq = c.queue('inq'), c.queue('outq', maxsize=1)
+        c.set(drv, 'in_queue', inq), c.set(drv, 'out_queue', outq)
+        errs = c.ext('link_error')
+        c.set(drv, 'link_error_callback', errs)
+        st = {'t': 0}
+
+        def send(_i, args, _k):
+            t = st['t']
+            st['t'] += 1
+            if t > 4:
+                return stop()
+            if t == 1:
+                c.invoke((drv, 'send_packet'), up)
+            return peer.handle(args[0], 'acked')
+        radio = c.ext('radio', returns={'send_packet': send})
+        th = c.new(RD + ':_RadioDriverThread', radio, inq, outq, c.ext('stats_cb'), errs, drv, None)     # the real RadioLinkStatistics stays
+        c.let('up', up)
+        c.call((th, 'run'))
+        c.ensure('loop-survives', "raised == 'StopLoop'")
+        c.ensure('no-link-error', "len(sent('link_error')) == 0")
+        c.let('na', len(peer.accepted))
+        c.ensure('uplink-still-served', 'na == 1 and (acc0[0] & 0xF3) == (port << 4 | chan) and bytes(acc0[1:]) == u0')
+        for j in range(2):
+            c.call((drv, 'receive_packet'), 0)
+            c.ensure('downlink-%d-exactly-once-in-order' % j, 'result is not None and result.port == (D%d[0] >> 4) and result.channel == (D%d[0] & 3) '
+                     'and bytes(result.data) == D%d[1:]' % (j, j, j))
+        c.call((drv, 'receive_packet'), 0)
+        c.ensure('nothing-else-received', 'result is None')
+    return k
+
+
+for _n in (1, 2, 3, 4, 32):
+    _real_statistics(_n)
+
+
+JOIN = 'thread:_RadioDriverThread.join'
+URI = 'radio://0/80/2M'
+
+
+def app_blocked_until_thread_exit(c, n_before):
+    """did the call the application just made (pause / close, from inside a radio transaction = while the radio thread is busy) wait for
+    the radio thread?  Only an untimed Thread.join returns after the thread's run() has returned; a timed join (the transaction can
+    take longer: the USB time-outs are 1 s each) or no join lets the application go on while the loop finishes its iteration."""
+    c.let('n_joins_before', n_before)
+    return bool(c.concretize("any(e[2].get('timeout') is None for e in sent('%s')[n_joins_before:])" % JOIN))
+
+
+def connected_driver(c, radio, errs):
+    """the real RadioDriver.connect() on a stubbed shared-radio instance; the thread is not started (c.virtual_time)"""
+    c.patch(RD + ':RadioManager.open', c.ext('RadioManager.open', returns={'()': lambda *_a: radio}))
+    drv = c.new(RD + ':RadioDriver')
+    c.call((drv, 'connect'), URI, None, errs)
+    return drv
+
+
+def _pause_restart(pre_pause_claim):
+    name = 'pause-restart.' + ('accepted-before-pause' if pre_pause_claim else 'accepted-after-pause')
+
+    @contract('C01', name,
+              [RD + ':RadioDriver.pause', RD + ':RadioDriver.restart', RD + ':_RadioDriverThread.stop', RD + ':RadioDriver.connect',
+               RD + ':_RadioDriverThread.run', RD + ':RadioDriver.send_packet'],
+              clause='every packet accepted by send_packet reaches the Crazyflie exactly once and in submission order, also across pause() / restart(): '
+                     + ('a packet accepted BEFORE pause() is not lost by the pause' if pre_pause_claim else
+                        'when pause() has returned the radio loop has stopped, so a packet accepted after that is not taken (and dropped) by the '
+                        'stopping loop but is transmitted, once, by the restarted loop; no packet is ever delivered twice or out of order'),
+              bounded='explicit schedule: pause() is called by the application during transmission 1 or 2 of the running loop (every outcome of that '
+                      'transmission), the application goes on as soon as pause() lets it (an untimed join waits for the loop to end, anything else '
+                      'does not), submits one packet, restarts, submits another; 3 transmissions after the restart with every outcome sequence',
+              max_paths=20000, thorough_only=pre_pause_claim)
+    def k(c):
+        stats_clock(c, steps=(0.25,))
+        np_stub(c)
+        pk = [c.new(STK + ':CRTPPacket', 0x30 | i, c.bytes('u%d' % i, 2)) for i in range(3)]
+        peer = Peer(c)
+        stop = c.raiser('StopLoop')
+        errs = c.ext('link_error')
+        st = {'thread': 1, 't': 0, 'submitted': [], 'refused': 0, 'blocked': None, 'mark': None, 'queued': [], 'outcomes': {}}
+        pause_at = c.choice('pause_during_transmission', [1, 2])
+        early = True if pre_pause_claim else c.choice('packet_before_pause', [True, False])
+
+        def submit(i):
+            """the application hands over packet i when the hand-off queue has room (it would block otherwise)"""
+            if i in st['submitted'] or int(c.concretize('drv.out_queue.qsize()')) != 0:
+                return
+            if c.invoke((drv, 'send_packet'), pk[i]) is not True:
+                st['refused'] += 1
+            st['submitted'].append(i)
+
+        def pause_has_returned():
+            st['mark'] = len(peer.accepted)
+            if int(c.concretize('drv.out_queue.qsize()')) == 1:
+                st['queued'] = [int(c.concretize('drv.out_queue.queue[0].header & 0x03'))]
+            st['before'] = list(st['submitted'])
+            submit(1)                       # the application believes the loop has stopped
+
+        def send(_i, args, _k):
+            c.let('frame', args[0])
+            if c.concretize('len(frame) == 3 and frame[0] == 0xff and frame[1] == 0x05 and frame[2] == 0x01'):
+                return peer.handle(args[0], 'acked')
+            st['t'] += 1
+            t = st['t']
+            if st['thread'] == 1:
+                if t > pause_at:
+                    return stop()           # the loop went on transmitting after pause(): it never stopped
+                if t == 1 and early:
+                    submit(0)
+                if t < pause_at:
+                    return peer.handle(args[0], 'acked')
+                outcome = c.choice('outcome_at_pause', OUTCOMES)
+                n_before = int(c.concretize("len(sent('%s'))" % JOIN))
+                c.invoke((drv, 'pause'))
+                st['blocked'] = app_blocked_until_thread_exit(c, n_before)
+                if not st['blocked']:
+                    pause_has_returned()
+                return peer.handle(args[0], outcome)
+            if t > 3:
+                return stop()
+            submit(2)
+            st['outcomes'][t] = c.choice('outcome_%d' % t, OUTCOMES)
+            return peer.handle(args[0], st['outcomes'][t])
+        radio = c.ext('radio', attrs={'version': 0.5}, returns={'send_packet': send})
+        drv = connected_driver(c, radio, errs)
+        c.let('drv', drv)
+        c.ensure('connected', 'raised is None')
+        th1 = c.getfield(drv, '_thread')
+        c.let('th1', th1)
+        c.call((th1, 'run'))
+        c.ensure('loop-stops-after-pause', 'raised is None')
+        if c.get('raised') is not None:
+            return
+        if st['blocked']:
+            pause_has_returned()
+        st['thread'], st['t'] = 2, 0
+        c.call((drv, 'restart'))
+        c.ensure('restarted', "raised is None and drv._thread is not None and not is_same(drv._thread, th1)")
+        if c.get('raised') is not None or c.getfield(drv, '_thread') is None:
+            return
+        c.call((c.getfield(drv, '_thread'), 'run'))
+        c.ensure('restarted-loop-runs', "raised == 'StopLoop'")
+        c.let('refused', st['refused'])
+        c.ensure('no-link-error-and-nothing-refused', "len(sent('link_error')) == 0 and refused == 0")
+        # which packets did the Crazyflie take, in which order
+        ids = []
+        for nm in peer.accepted:
+            ids.append(int(c.concretize('%s[0] & 0x03' % nm)))
+            c.let('orig', pk[ids[-1]])
+            c.ensure('accepted-frame-is-packet-%d' % ids[-1], '(%s[0] & 0xF3) == (orig.header & 0xF3) and bytes(%s[1:]) == bytes(orig.data)' % (nm, nm))
+        c.let('ids', tuple(ids)), c.let('submitted', tuple(st['submitted']))
+        c.ensure('exactly-once-in-submission-order', 'all(ids[i] < ids[i + 1] for i in range(len(ids) - 1)) and all(i in submitted for i in ids)')
+        # what the restarted loop owes: it sends a null frame, then the pending packets in submission order, moving on at every
+        # acknowledgement; a frame has reached the Crazyflie as soon as one of its transmissions was not lost on the way up.  Pending:
+        # what waited in the hand-off queue when pause() returned and what was accepted after that
+        in_hand = [i for i in st['before'] if i not in ids[:st['mark']] and i not in st['queued']] if pre_pause_claim else []
+        pending = [None] + in_hand + st['queued'] + [i for i in st['submitted'] if i not in st['before']]
+        owed, idx = [], 0
+        for t in (1, 2, 3):
+            o = st['outcomes'].get(t)
+            if o is None or idx >= len(pending):
+                break
+            if o != 'uplink-lost' and pending[idx] is not None and pending[idx] not in owed:
+                owed.append(pending[idx])
+            if o == 'acked':
+                idx += 1
+        c.let('after', tuple(ids[st['mark']:])), c.let('owed', tuple(owed))
+        c.ensure('packets-reach-the-crazyflie-after-restart', 'after == owed')
+    return k
+
+
+_pause_restart(False)
+_pause_restart(True)       # thorough only
+
+
+@contract('C01', 'close-reconnect',
+          [RD + ':RadioDriver.close', RD + ':_RadioDriverThread.stop', RD + ':RadioDriver.connect', RD + ':_RadioDriverThread.run',
+           RD + ':RadioDriver.send_packet', RD + ':RadioDriver.receive_packet'],
+          clause='exactly once and in order also on the second use of a driver object: close() stops the radio loop (no transmission after the one in '
+                 'progress) and closes its share of the dongle once; after connecting again the Crazyflie gets exactly the packets submitted on the new '
+                 'connection and receive_packet returns exactly what the new peer queued - nothing left over from the closed connection goes out or '
+                 'comes in',
+          bounded='explicit schedule: close() is called by the application during transmission 2 of the first connection (every outcome), with one '
+                  'packet still waiting in the hand-off queue and one received packet not yet read; loss-free second connection of 3 transmissions')
+def close_reconnect(c):
+    stats_clock(c, steps=(0.25,))
+    np_stub(c)
+    pk = [c.new(STK + ':CRTPPacket', 0x30 | i, c.bytes('u%d' % i, 2)) for i in range(3)]
+    c.bytes('DA', 3), c.bytes('DB', 3)
+    peers = [Peer(c, ['DA'], 'A'), Peer(c, ['DB'], 'B')]
+    stop = c.raiser('StopLoop')
+    st = {'conn': 0, 't': 0}
+
+    def submit(i):
+        c.invoke((c.get('drv'), 'send_packet'), pk[i])
+
+    def send(_i, args, _k):
+        peer = peers[st['conn']]
+        c.let('frame', args[0])
+        if c.concretize('len(frame) == 3 and frame[0] == 0xff and frame[1] == 0x05 and frame[2] == 0x01'):
+            return peer.handle(args[0], 'acked')
+        st['t'] += 1
+        t = st['t']
+        if st['conn'] == 0:
+            if t > 2:
+                return stop()               # the loop went on transmitting after close()
+            if t == 1:
+                submit(0)
+                return peer.handle(args[0], 'acked')
+            submit(1)
+            c.invoke((c.get('drv'), 'close'))
+            return peer.handle(args[0], c.choice('outcome_at_close', OUTCOMES))
+        if t > 3:
+            return stop()
+        if t == 1:
+            submit(2)
+        return peer.handle(args[0], 'acked')
+    radios = [c.ext('radioA', attrs={'version': 0.5}, returns={'send_packet': send}), c.ext('radioB', attrs={'version': 0.5}, returns={'send_packet': send})]
+    opened = []
+
+    def open_(*_a):
+        opened.append(1)
+        return radios[len(opened) - 1]
+    c.patch(RD + ':RadioManager.open', c.ext('RadioManager.open', returns={'()': open_}))
+    errs = c.ext('link_error')
+    drv = c.new(RD + ':RadioDriver')
+    c.let('drv', drv)
+    c.call((drv, 'connect'), URI, None, errs)
+    c.ensure('connected', 'raised is None')
+    c.call((c.getfield(drv, '_thread'), 'run'))
+    c.ensure('loop-stops-after-close', 'raised is None')
+    c.ensure('share-of-the-dongle-closed-once', "len(sent('radioA.close')) == 1")
+    if c.get('raised') is not None:
+        return
+    st['conn'], st['t'] = 1, 0
+    c.call((drv, 'connect'), URI, None, errs)
+    c.ensure('connected-again', 'raised is None')
+    if c.get('raised') is not None:
+        return
+    c.call((c.getfield(drv, '_thread'), 'run'))
+    c.ensure('second-loop-runs', "raised == 'StopLoop'")
+    c.ensure('old-dongle-share-not-used-again', "len(sent('radioA.send_packet')) <= 3 and len(sent('radioB.send_packet')) == 5")
+    c.let('nb', len(peers[1].accepted)), c.let('p2', pk[2])
+    c.ensure('new-peer-gets-exactly-the-new-packet', 'nb == 1 and (Bacc0[0] & 0xF3) == (p2.header & 0xF3) and bytes(Bacc0[1:]) == bytes(p2.data)')
+    c.call((drv, 'receive_packet'), 0)
+    c.ensure('first-received-is-the-new-peers-packet', 'result is not None and result.port == (DB[0] >> 4) and result.channel == (DB[0] & 3) and bytes(result.data) == DB[1:]')
+    c.call((drv, 'receive_packet'), 0)
+    c.ensure('nothing-else-received', 'result is None')
+    c.ensure('no-link-error', "len(sent('link_error')) == 0")
+
+
+# ------------------------------------------------------------------------- several links on one dongle, down to the USB requests
+
+def _usb_state_before(tr, i):
+    """indices of the last channel / address / data-rate vendor requests before trace position i (None: never requested)"""
+    last = {0x01: None, 0x02: None, 0x03: None}
+    for j, e in enumerate(tr[:i]):
+        if e[0] == 'handle.ctrl_transfer' and e[1][1] in last:
+            last[e[1][1]] = j
+    return last[0x01], last[0x02], last[0x03]
+
+
+def _shared_full_stack(other):
+    @contract('C01', 'shared_radio.full-stack.' + other,
+              [RD + ':_SharedRadioInstance.send_packet', RD + ':_SharedRadioInstance.set_arc', RD + ':_SharedRadioInstance.scan_selected',
+               RD + ':_SharedRadioInstance.scan_channels', RD + ':_SharedRadio.run', CR + ':Crazyradio.set_channel', CR + ':Crazyradio.set_address',
+               CR + ':Crazyradio.set_data_rate', CR + ':Crazyradio.set_arc', CR + ':Crazyradio.send_packet', CR + ':Crazyradio.scan_channels',
+               CR + ':Crazyradio.scan_selected', CR + ':_send_vendor_setup'],
+              clause='every frame of a link reaches ITS Crazyflie and the acknowledgement comes back to that link: when the frame is written to the dongle '
+                     'the dongle has been given the channel, address and data rate of the sending link (whatever another link on the same dongle did in '
+                     'between: %s), the call returns the acknowledgement decoded from the dongle reply to that very frame, and the command of the '
+                     'other link is answered to the other link only' % other,
+              bounded='two links (symbolic settings) on one dongle; history: link A sends, link B does %s, link A sends; the shared radio thread serves '
+                      'each command as soon as it is queued' % other)
+    def k(c):
+        c.patch(CR + ':usb', c.ext('usb', attrs={'TYPE_VENDOR': 0x40}))
+        c.patch(CR + ':Crazyradio._log_packet', c.ext('log_packet'))
+        replies = [c.bytes('rx0', 3), c.bytes('rx1', 3), c.bytes('rx2', 3)]
+        c.require('rx0[0] != 0 and rx1[0] != 0 and rx2[0] != 0')
+        last = 2 if other == 'send_packet' else 1         # which reply answers link A's second frame
+        frames = [c.bytes('f0', 3), c.bytes('f1', 3)]
+        st = {'reads': 0, 'a_reads': []}
+
+        def read(*_a):
+            st['reads'] += 1
+            if st.get('scanning'):
+                return c.snapshot('noack', 'bytes([0])')
+            st['a_reads'].append(st['reads'])
+            return replies[len(st['a_reads']) - 1]
+        handle = c.ext('handle', returns={'read': read})
+        dongle = c.obj(CR + ':Crazyradio', handle=handle, devid=0, current_address=None, current_channel=None, current_datarate=None, arc=3)
+        realq = c.queue('cmdq')
+        rq = [c.queue('rspA'), c.queue('rspB')]
+        shared = c.obj(RD + ':_SharedRadio', _radio=dongle, _devid=0, _cmd_queue=realq, _rsp_queues=c.dict([(0, rq[0]), (1, rq[1])]),
+                       _next_instance_id=2, _lock=c.lock('sem'))
+
+        def put(_i, args, _k):
+            realq.items.append(args[0]) if hasattr(realq, 'items') else realq.put(args[0])
+            c.invoke_catch((shared, 'run'))         # the shared radio thread serves the command, then waits for the next one
+        cmdq = c.ext('cmd_queue', returns={'put': put})
+        inst = []
+        for i, nm in enumerate('AB'):
+            x = c.new(RD + ':_SharedRadioInstance', i, cmdq, rq[i], 0.5)
+            c.int('ch' + nm, 0, 125), c.int('dr' + nm, 0, 2)
+            addr = c.ints('ad' + nm, 5, 0, 255, kind='tuple')
+            c.call((x, 'set_channel'), c.get('ch' + nm)), c.call((x, 'set_data_rate'), c.get('dr' + nm)), c.call((x, 'set_address'), addr)
+            inst.append(x)
+        c.reset_trace()
+        c.call((inst[0], 'send_packet'), frames[0])
+        c.let('r0', c.get('result'))
+        c.ensure('first-send-returns', 'raised is None')
+        st['scanning'] = other != 'send_packet'
+        if other == 'send_packet':
+            fb = c.bytes('fB', 3)
+            c.call((inst[1], 'send_packet'), fb)
+            c.let('rB', c.get('result'))
+            c.ensure('other-link-gets-the-reply-to-its-own-frame', 'raised is None and rB.ack == ((rx1[0] & 1) == 1) and bytes(rB.data) == rx1[1:]')
+        elif other == 'set_arc':
+            c.int('arc', 0, 15)
+            c.call((inst[1], 'set_arc'), c.get('arc'))
+            c.ensure('set_arc-returns-nothing', 'raised is None and result is None')
+        elif other == 'scan_channels':
+            c.int('start', 0, 124)
+            c.call((inst[1], 'scan_channels'), c.get('start'), c.snapshot('stop', 'start + 1'), (0xFF,))
+            c.ensure('scan-answered-to-the-scanning-link', 'raised is None and tuple(result) == ()')
+        else:
+            c.int('s1', 0, 125), c.int('r1', 0, 2)
+            c.call((inst[1], 'scan_selected'), (c.dict([('channel', c.get('s1')), ('datarate', c.get('r1'))]),), (0xFF, 0xFF, 0xFF))
+            c.ensure('scan-answered-to-the-scanning-link', 'raised is None and tuple(result) == ()')
+        st['scanning'] = False
+        c.call((inst[0], 'send_packet'), frames[1])
+        c.let('r1_', c.get('result'))
+        c.ensure('second-send-returns', 'raised is None')
+        c.let('rq', tuple(rq))
+        c.ensure('no-answer-left-over-for-anybody', 'rq[0].qsize() == 0 and rq[1].qsize() == 0')
+        for j, (r, x) in enumerate((('r0', 0), ('r1_', last))):
+            c.ensure('ack-%d-is-the-reply-to-that-frame' % j, '%s.ack == ((rx%d[0] & 1) == 1) and bytes(%s.data) == rx%d[1:]' % (r, x, r, x))
+        tr = c.get('trace') or ()
+        writes = [i for i, e in enumerate(tr) if e[0] == 'handle.write']
+        c.let('n_writes', len(writes))
+        c.ensure('one-write-per-frame', 'n_writes == %d' % (2 + {'set_arc': 0, 'scan_channels': 2, 'scan_selected': 1, 'send_packet': 1}[other]))
+        checks = [('0', writes[0] if writes else None, 'f0', 'A'), ('1', writes[-1] if writes else None, 'f1', 'A')]
+        if other == 'send_packet' and len(writes) == 3:
+            checks.append(('of-the-other-link', writes[1], 'fB', 'B'))
+        for j, w, f, who in checks:
+            if w is None:
+                continue
+            ich, iad, idr = _usb_state_before(tr, w)
+            c.ensure('frame-%s-written' % j, "trace[%d][2]['data'] == %s" % (w, f))
+            if None in (ich, iad, idr):
+                c.ensure('dongle-was-configured-before-frame-%s' % j, 'False')
+                continue
+            c.ensure('frame-%s-goes-out-with-the-settings-of-its-link' % j, "trace[%d][2]['wValue'] == ch%s and tuple(trace[%d][2]['data_or_wLength']) == tuple(ad%s) "
+                     "and trace[%d][2]['wValue'] == dr%s" % (ich, who, iad, who, idr, who))
+    return k
+
+
+for _o in ('send_packet', 'set_arc', 'scan_channels', 'scan_selected'):
+    _shared_full_stack(_o)
+
+
+@contract('C01', 'radio_manager.shared-dongle',
+          [RD + ':RadioManager.open', RD + ':_SharedRadio.__init__', RD + ':_SharedRadio.open_instance', RD + ':_SharedRadioInstance.close',
+           RD + ':_SharedRadioInstance.send_packet', RD + ':_SharedRadio.run'],
+          clause='links opened on the same dongle number share ONE dongle object and one radio thread but never a response queue; when the last link is '
+                 'closed the dongle is released once, and a link opened after that gets a freshly opened dongle through which its frames go out and its '
+                 'acknowledgements come back (state surviving a reconnect)',
+          bounded='history on dongle 0: open A, open B, close A, close B, open C, C sends one frame')
+def radio_manager(c):
+    c.virtual_time()
+    ack = mk_ack(c, True, c.bytes('a0', 2))
+    made = []
+
+    def make(*_a):
+        made.append(c.ext('dongle%d' % (len(made) + 1), attrs={'version': 0.5}, returns={'send_packet': ack}))
+        return made[-1]
+    c.patch(RD + ':Crazyradio', c.ext('Crazyradio', returns={'()': make}))
+    locks = []
+
+    def sem(*_a):
+        locks.append(c.lock('sem%d' % len(locks)))
+        return locks[-1]
+    c.patch(RD + ':Semaphore', c.ext('Semaphore', returns={'()': sem}))
+    queues = []
+
+    def mkq(*_a):
+        queues.append(c.queue('q%d' % len(queues)))       # sequential queue model in both back ends: waiting for ever is reported at once
+        return queues[-1]
+    c.patch(RD + ':Queue', c.ext('Queue', returns={'()': mkq}))
+    c.patch(RD + ':RadioManager._radios', c.list([]))
+    c.patch(RD + ':RadioManager._lock', c.lock('manager_lock'))
+    a = c.call(RD + ':RadioManager.open', 0)
+    c.ensure('first-open', 'raised is None')
+    b = c.call(RD + ':RadioManager.open', 0)
+    c.ensure('second-open', 'raised is None')
+    c.let('a', a), c.let('b', b)
+    c.let('n_made', len(made))
+    c.ensure('one-dongle-object-for-both-links', "n_made == 1 and is_same(a._cmd_queue, b._cmd_queue) and len(sent('thread:_SharedRadio.start')) == 1")
+    c.ensure('own-response-queues', 'a._instance_id != b._instance_id and not is_same(a._rsp_queue, b._rsp_queue)')
+    c.snapshot('shared', "sent('thread:_SharedRadio.start')[0][1][0]")
+    shared = c.get('shared')
+    c.call((a, 'close'))
+    c.call((b, 'close'))
+    c.call((shared, 'run'))
+    c.ensure('radio-thread-served-both-closes', "raised == 'Deadlock' and len(shared._rsp_queues) == 0")
+    c.ensure('dongle-released-once', "len(sent('dongle1.close')) == 1")
+    cc = c.call(RD + ':RadioManager.open', 0)
+    c.ensure('third-open', 'raised is None')
+    c.let('cc', cc), c.let('n_made', len(made))
+    c.ensure('fresh-dongle-for-the-new-link', 'n_made == 2')
+    c.ensure('new-link-is-served-by-the-same-radio-thread', "is_same(cc._cmd_queue, a._cmd_queue) and len(sent('thread:_SharedRadio.start')) == 1")
+    frame = c.bytes('f', 3)
+    c.call((cc, 'send_packet'), frame)
+    c.ensure('link-waits-for-its-answer', "raised == 'Deadlock'")
+    c.call((shared, 'run'))
+    c.let('ack', ack), c.let('frame', frame)
+    c.ensure('frame-goes-out-through-the-fresh-dongle', "len(sent('dongle2.send_packet')) == 1 and sent('dongle2.send_packet')[0][1][0] == frame and len(sent('dongle1.send_packet')) == 0")
+    c.ensure('answer-reaches-the-new-link', 'cc._rsp_queue.qsize() == 1 and is_same(cc._rsp_queue.queue[0], ack)')
+    c.ensure('locks-released', 'not manager_lock.locked() and not sem0.locked()')
+
+
+def _packet_views(n):
+    @contract('C01', 'received-packet.views.len%d' % n, [STK + ':CRTPPacket.__init__', STK + ':CRTPPacket._get_data_l', STK + ':CRTPPacket._get_data_t',
+                                                        STK + ':CRTPPacket._get_data'],
+              clause='the packet that comes out of receive_packet is the packet the Crazyflie queued: built the way the radio loop builds it from an '
+                     'acknowledgement payload, its port, channel and every view of its data (data, datal, datat) are those of the payload',
+              bounded='payload of %d bytes after the header (0, 1, 3 and 31 enumerated), every byte value' % n)
+    def k(c):
+        c.int('h', 0, 255)
+        p = c.bytes('p', n)
+        pk = c.new(STK + ':CRTPPacket', c.get('h'), c.snapshot('payload', 'list(p)'))
+        c.let('pk', pk)
+        c.ensure('port-and-channel', 'pk.port == (h >> 4) and pk.channel == (h & 3)')
+        c.ensure('data-views', 'bytes(pk.data) == p and pk.datat == tuple(p) and pk.datal == list(p) and len(pk.datat) == %d' % n)
+    return k
+
+
+for _n in (0, 1, 3, 31):
+    _packet_views(_n)
+
+
+@contract('C01', 'receive_packet.modes', [RD + ':RadioDriver.receive_packet'],
+          clause='every packet the radio loop queued comes out of receive_packet exactly once and in order, in each of its three modes (no wait, wait for '
+                 'ever, wait with a time-out); an empty queue gives None (or blocks, in the wait-for-ever mode) and never a packet a second time',
+          bounded='two queued packets, three calls; one mode per call sequence')
+def receive_modes(c):
+    mode = c.choice('wait', [0, -1, 'positive'])
+    wait = c.float('w', finite=True) if mode == 'positive' else mode
+    if mode == 'positive':
+        c.require('w > 0.0 and w < 10.0')
+    drv = c.new(RD + ':RadioDriver')
+    a, b = c.new(STK + ':CRTPPacket', 0x50, c.bytes('a', 1)), c.new(STK + ':CRTPPacket', 0x51, c.bytes('b', 1))
+    inq = c.queue('inq', [a, b])
+    c.set(drv, 'in_queue', inq)
+    c.let('a', a), c.let('b', b), c.let('inq', inq)
+    c.call((drv, 'receive_packet'), wait)
+    c.ensure('first-out-first', 'raised is None and is_same(result, a)')
+    c.call((drv, 'receive_packet'), wait)
+    c.ensure('then-the-second', 'raised is None and is_same(result, b) and inq.qsize() == 0')
+    c.call((drv, 'receive_packet'), wait)
+    if mode == -1:
+        c.ensure('waits-for-the-next-packet', "raised == 'Deadlock'")
+    else:
+        c.ensure('nothing-twice', 'raised is None and result is None')
+
+
+@contract('C01', 'link_statistics.long-run', RLS_FUNCS,
+          clause='the loop keeps delivering for as long as the link is up: the statistics hook still returns normally after more acknowledgements than its '
+                 'sliding window holds (an exception there ends the radio thread silently)',
+          bounded='105 consecutive acknowledgements (window: 100) without payload and 5 with a 3-byte payload, symbolic retry counts; numpy replaced by a stub')
+def stats_long_run(c):
+    stats_clock(c, steps=(0.25,), n=2000)
+    np_stub(c)
+    st = c.new(RLS + ':RadioLinkStatistics', c.ext('stats_cb'))
+    c.int('retry', 0, 15)
+    c.bytes('d', 3)
+    c.require('d[0] == 0xf3 and d[1] == 0x01')
+    ok = True
+    for i in range(110):
+        ack = c.obj(ACK, ack=True, data=(c.get('d') if i >= 105 else ()), powerDet=False, retry=c.get('retry'))
+        c.call((st, 'update'), ack, None)
+        if c.get('raised') is not None:
+            ok = False
+            break
+    c.let('all_returned', ok), c.let('st', st)
+    c.ensure('every-update-returns', 'all_returned')
+    c.ensure('window-is-bounded', 'len(st._retries) <= 100')
+
+
+@contract('C01', 'restart.running-loop-is-kept', [RD + ':RadioDriver.restart', RD + ':RadioDriver.connect'],
+          clause='exactly once: there is never a second radio loop on the same link (two loops would each run their own alternating bits over the same '
+                 'queues) - restart() on a driver whose loop is running changes nothing')
+def restart_running(c):
+    stats_clock(c, steps=(0.25,))
+    radio = c.ext('radio', attrs={'version': 0.5})
+    drv = connected_driver(c, radio, c.ext('link_error'))
+    c.require('raised is None')
+    th1 = c.getfield(drv, '_thread')
+    c.let('drv', drv), c.let('th1', th1)
+    c.call((drv, 'restart'))
+    c.ensure('same-loop', 'raised is None and is_same(drv._thread, th1)')
+    c.ensure('no-second-thread-started', "len(sent('thread:_RadioDriverThread.start')) == 1")
+
+
+@contract('C01', 'radio_manager.open-fails',
+          [RD + ':RadioManager.open', RD + ':_SharedRadio.__init__', RD + ':_SharedRadio.open_instance'],
+          clause='a failed attempt to open the dongle leaves no lock behind: the next connection attempt is served (it gets its dongle, its own queue) '
+                 'instead of blocking for ever',
+          bounded='history: open fails because the dongle cannot be opened, open again succeeds')
+def radio_manager_fails(c):
+    c.virtual_time()
+    made = []
+
+    def make(*_a):
+        made.append(1)
+        if len(made) == 1:
+            return c.raiser('Exception', 'Cannot find a Crazyradio Dongle')()
+        return c.ext('dongle%d' % len(made), attrs={'version': 0.5})
+    c.patch(RD + ':Crazyradio', c.ext('Crazyradio', returns={'()': make}))
+    locks, queues = [], []
+
+    def sem(*_a):
+        locks.append(c.lock('sem%d' % len(locks)))
+        return locks[-1]
+
+    def mkq(*_a):
+        queues.append(c.queue('q%d' % len(queues)))
+        return queues[-1]
+    c.patch(RD + ':Semaphore', c.ext('Semaphore', returns={'()': sem}))
+    c.patch(RD + ':Queue', c.ext('Queue', returns={'()': mkq}))
+    c.patch(RD + ':RadioManager._radios', c.list([]))
+    c.patch(RD + ':RadioManager._lock', c.lock('manager_lock'))
+    c.call(RD + ':RadioManager.open', 0)
+    c.ensure('failure-is-reported', "raised == 'Exception'")
+    c.ensure('manager-lock-released', 'not manager_lock.locked()')
+    a = c.call(RD + ':RadioManager.open', 0)
+    c.let('a', a)
+    c.ensure('next-open-is-served', 'raised is None and a is not None and a._rsp_queue is not None')
+    c.let('locks', tuple(locks))
+    c.ensure('locks-released', 'not manager_lock.locked() and all(not l.locked() for l in locks)')
+
+
+OUTCOMES5 = OUTCOMES + ['no-status-not-sent', 'no-status-sent']
+
+
+def _delivery_no_status(K, n_up, n_down):
+    @contract('C01', 'delivery.no-status.K%d.up%d.down%d' % (K, n_up, n_down),
+              [RD + ':_RadioDriverThread.run', RD + ':_RadioDriverThread._send_packet_safe', RD + ':RadioDriver.send_packet', RD + ':RadioDriver.receive_packet'],
+              clause='exactly once and in order in both directions whatever pattern of lost transmissions and lost acknowledgements occurs, also when the '
+                     'dongle reports no status at all for a transmission (USB time-out: the frame may or may not have gone out) - the same frame is '
+                     'then transmitted again with the same bits',
+              bounded='%d transmissions after negotiation, every outcome sequence over %s and every submission schedule; %d uplink / %d downlink '
+                      'packets with symbolic payloads' % (K, OUTCOMES5, n_up, n_down), max_paths=400000, thorough_only=(K > 3))
+    def k(c):
+        ups = [c.new(STK + ':CRTPPacket', 0x30 | i, c.bytes('u%d' % i, 2)) for i in range(n_up)]
+        for j in range(n_down):
+            c.bytes('D%d' % j, 3)
+        peer = Peer(c, ['D%d' % j for j in range(n_down)])
+        stop = c.raiser('StopLoop')
+        drv = c.new(RD + ':RadioDriver')
+        inq, outq = c.queue('inq'), c.queue('outq', maxsize=1)
+        c.set(drv, 'in_queue', inq), c.set(drv, 'out_queue', outq)
+        errs = c.ext('link_error')
+        c.set(drv, 'link_error_callback', errs)
+        st = {'t': 0, 'submitted': 0, 'waiting': [], 'in_flight': None, 'owed': []}
+
+        def send(_i, args, _k):
+            t = st['t']
+            st['t'] += 1
+            if t == 0:
+                return peer.handle(args[0], 'acked')
+            if t > K:
+                return stop()
+            if st['submitted'] < n_up and len(outq.items) == 0 and c.choice('submit_at_%d' % t, [False, True]):
+                c.invoke((drv, 'send_packet'), ups[st['submitted']])
+                st['waiting'].append(st['submitted'])
+                st['submitted'] += 1
+            o = c.choice('outcome_%d' % t, OUTCOMES5)
+            # reference: the frame in flight reaches the Crazyflie with its first transmission that is not lost on the way up; the loop
+            # moves on to what waits in the hand-off queue (or a null frame) when, and only when, it sees an acknowledgement
+            if o not in ('uplink-lost', 'no-status-not-sent') and st['in_flight'] is not None and st['in_flight'] not in st['owed']:
+                st['owed'].append(st['in_flight'])
+            if o == 'acked':
+                st['in_flight'] = st['waiting'].pop(0) if st['waiting'] else None
+            return peer.handle(args[0], o)
+        radio = c.ext('radio', returns={'send_packet': send})
+        th = c.new(RD + ':_RadioDriverThread', radio, inq, outq, None, errs, drv, None)
+        c.set(th, '_radio_link_statistics', c.ext('stats'))
+        c.call((th, 'run'))
+        c.ensure('loop-survives', "raised == 'StopLoop'")
+        c.ensure('no-link-error', "len(sent('link_error')) == 0")
+        na = len(peer.accepted)
+        c.let('na', na), c.let('submitted', st['submitted'])
+        c.ensure('accepted-is-prefix-of-submitted', 'na <= submitted and submitted - na <= 2')
+        c.let('owed', len(st['owed']))
+        c.ensure('every-frame-not-lost-on-the-way-up-has-reached-the-crazyflie', 'na == owed')
+        for i in range(min(na, n_up)):
+            c.let('up_i', ups[i])
+            c.ensure('uplink-%d-exactly-once-in-order' % i, "(acc%d[0] & 0xF3) == (up_i.header & 0xF3) and bytes(acc%d[1:]) == bytes(up_i.data)" % (i, i))
+        got = 0
+        for j in range(n_down + 1):
+            c.call((drv, 'receive_packet'), 0)
+            if c.get('result') is None:
+                break
+            got += 1
+            if j < n_down:
+                c.ensure('downlink-%d-exactly-once-in-order' % j, 'result.port == (D%d[0] >> 4) and result.channel == (D%d[0] & 3) and bytes(result.data) == D%d[1:]' % (j, j, j))
+        c.let('n_rx', got), c.let('offer', peer.offer)
+        c.ensure('received-count-matches-peer-progress', 'offer <= n_rx <= min(offer + 1, %d)' % n_down)
+    return k
+
+
+_delivery_no_status(3, 2, 2)
+_delivery_no_status(4, 2, 2)     # thorough only
+
+
+# ------------------------------------------------------------------------- induction over the service loop: any number of transmissions and packets
+
+def _pay(k):
+    """payload of the k-th packet of a direction, as a spec expression: its number (mod 65536)"""
+    return 'bytes([(%s) %% 256, ((%s) // 256) %% 256])' % (k, k)
+
+
+def _service_loop_roles(fnode):
+    """Find the service loop of run() and the locals that play a role in the invariant by what they are USED for, not by their names
+    (a renamed local or a moved line must not break the contract): the frame handed to _send_packet_safe, the time-out handed to
+    out_queue.get, the counters (targets of `+= constant`); every other local assigned in the loop is set before it is read."""
+    import ast
+    loop = next(n for n in ast.walk(fnode) if isinstance(n, ast.While))
+    frame = wait = None
+    counters, assigned = set(), set()
+    for n in ast.walk(loop):
+        if isinstance(n, ast.Call) and isinstance(n.func, ast.Attribute):
+            if n.func.attr == '_send_packet_safe' and len(n.args) == 2 and isinstance(n.args[1], ast.Name):
+                frame = n.args[1].id
+            if n.func.attr == 'get' and 'out_queue' in ast.unparse(n.func.value) and len(n.args) == 2 and isinstance(n.args[1], ast.Name):
+                wait = n.args[1].id
+        if isinstance(n, ast.AugAssign) and isinstance(n.target, ast.Name) and isinstance(n.value, ast.Constant):
+            counters.add(n.target.id)
+        if isinstance(n, ast.Name) and isinstance(n.ctx, ast.Store):
+            assigned.add(n.id)
+        if isinstance(n, ast.ExceptHandler) and n.name:
+            assigned.add(n.name)
+        if isinstance(n, ast.Import):
+            assigned.update((a.asname or a.name).split('.')[0] for a in n.names)
+    if frame is None or wait is None:
+        raise RuntimeError('service loop of run(): frame / time-out locals not found')
+    return loop.lineno, frame, wait, sorted(counters - {frame, wait}), sorted(assigned)
+
+
+@contract('C01', 'delivery.inductive',
+          [RD + ':_RadioDriverThread.run', RD + ':_RadioDriverThread._send_packet_safe', RD + ':RadioDriver.send_packet', RD + ':set_retries_before_disconnect'],
+          clause='for ANY number of transmissions and packets: an inductive invariant of the service loop and the assumed safelink peer says that the peer '
+                 'has taken exactly the first A submitted packets, in order (A = submitted - waiting in the hand-off queue - the one in flight unless '
+                 'already taken), that the host has queued exactly the first R downlink packets, in order (R = confirmed by the peer, + 1 if the current '
+                 'one is received but not yet confirmed), and that the loss counter is the configured number N (symbolic) minus the current run of '
+                 'unacknowledged transmissions, a link error being reported in an iteration iff that run reaches exactly N.  Obligations: the '
+                 'invariant holds when the loop is entered after a confirmed negotiation, and ONE iteration from ANY state satisfying it - with any '
+                 'outcome in %s, the application submitting or not, the Crazyflie queueing more or not - re-establishes it' % OUTCOMES,
+          max_paths=20000)
+def delivery_inductive(c):
+    sym = c.backend == 'sym'
+    c.int('N', 1, 100000)
+    c.invoke(RD + ':set_retries_before_disconnect', c.get('N'))
+    c.int('Q', 0, 3)                                    # downlink packets the Crazyflie has queued at start (more may follow at any time)
+    for nm in ('S', 'A', 'E', 'G', 'J', 'L', 'R0'):     # ghost state: submitted, accepted, peer up bit, peer tag, confirmed, loss run, received before
+        c.let(nm, 0)
+    c.let('ok', True), c.let('expect_report', False)
+    stop = c.raiser('StopLoop')
+    drv = c.new(RD + ':RadioDriver')
+    inq, outq = c.queue('inq'), c.queue('outq', maxsize=1)
+    c.set(drv, 'in_queue', inq), c.set(drv, 'out_queue', outq)
+    errs = c.ext('link_error')
+    c.set(drv, 'link_error_callback', errs)
+    st = {'tx': 0}
+
+    def new_packet(k):
+        return c.new(STK + ':CRTPPacket', 0x30, c.snapshot('new_payload', _pay(k)))
+
+    def lost():
+        c.snapshot('L', 'L + 1')
+        c.snapshot('expect_report', 'L == N')
+        return mk_ack(c, False, ())
+
+    def send(_i, args, _k):
+        c.let('frame', args[0])
+        if c.concretize('len(frame) == 3 and frame[0] == 0xff and frame[1] == 0x05 and frame[2] == 0x01'):
+            return mk_ack(c, True, c.snapshot('good', 'bytes([0xff, 0x05, 0x01])'))
+        st['tx'] += 1
+        if st['tx'] > (1 if sym else 8):
+            return stop()                               # symbolic: one arbitrary iteration; native: a bounded concrete run from the start
+        c.let('expect_report', False)
+        if int(c.concretize('drv.out_queue.qsize()')) == 0 and c.choice('submit', [False, True]):
+            c.invoke((drv, 'send_packet'), new_packet('S'))
+            c.snapshot('S', 'S + 1')
+        c.int('crazyflie_queues_more', 0, 1)
+        c.snapshot('Q', 'Q + crazyflie_queues_more')
+        o = c.choice('outcome', OUTCOMES)
+        if o == 'uplink-lost':
+            return lost()
+        # the peer's step (module docstring), on symbolic bits: no case split
+        c.snapshot('moves_on', 'J < Q and ((frame[0] >> 2) & 1) != G')
+        c.snapshot('J', 'J + (1 if moves_on else 0)'), c.snapshot('G', '(1 - G) if moves_on else G')
+        c.snapshot('takes', '((frame[0] >> 3) & 1) == E')
+        c.snapshot('takes_packet', 'takes and (frame[0] & 0xF3) != 0xF3')
+        c.snapshot('E', '(1 - E) if takes else E')
+        if int(c.concretize('len(frame)')) == 3:
+            c.snapshot('ok', 'ok and (not takes_packet or ((frame[0] & 0xF3) == 0x30 and bytes(frame[1:]) == %s))' % _pay('A'))
+        else:
+            c.snapshot('ok', 'ok and not takes_packet')
+        c.snapshot('A', 'A + (1 if takes_packet else 0)')
+        if o == 'ack-lost':
+            return lost()
+        c.let('L', 0)
+        if c.concretize('J < Q'):
+            return mk_ack(c, True, c.snapshot('ackdata', 'bytes([0x50 | (E << 3) | (G << 2)]) + ' + _pay('J')))
+        return mk_ack(c, True, ())
+    radio = c.ext('radio', returns={'send_packet': send})
+    th = c.new(RD + ':_RadioDriverThread', radio, inq, outq, None, errs, drv, None)
+    c.set(th, '_radio_link_statistics', c.ext('stats'))
+    c.let('drv', drv), c.let('th', th)
+    if sym:
+        from pyvc.values import PBytearray
+        lineno, FRAME, WAIT, counters, assigned = _service_loop_roles(c.I.resolve(RD + ':_RadioDriverThread.run').node)
+        inflight = 'S - self._out_queue.qsize() - 1'
+        invariant = [
+            '0 <= self._curr_up <= 1 and 0 <= self._curr_down <= 1 and 0 <= E <= 1 and 0 <= G <= 1',
+            '0 <= A and 0 <= J <= Q and 0 <= R0 and 0 <= L and 0 <= S and self._has_safelink is True',
+            # the frame in flight: a null frame, or the packet number S - waiting - 1
+            '(len(FRAME) == 1 and (FRAME[0] & 0xF3) == 0xF3) or (len(FRAME) == 3 and (FRAME[0] & 0xF3) == 0x30 and %s >= 0 and bytes(FRAME[1:]) == %s)' % (inflight, _pay(inflight)),
+            # what waits in the hand-off queue is the last packet submitted
+            'self._out_queue.qsize() == 0 or (self._out_queue.qsize() == 1 and S >= 1 and (self._out_queue.queue[0].header & 0xF3) == 0x30 and '
+            'bytes(self._out_queue.queue[0].data) == %s)' % _pay('S - 1'),
+            # uplink: every frame the peer took was the next packet in order, and it has taken all but the ones still on the host side
+            'ok',
+            'A == S - self._out_queue.qsize() - (1 if (len(FRAME) == 3 and self._curr_up == E) else 0)',
+            # downlink: received = confirmed by the peer (+ 1 while the confirmation is on its way), in order
+            'R0 + self._in_queue.qsize() == J + (0 if self._curr_down == G else 1) and (self._curr_down == G or J < Q)',
+            'all(self._in_queue.queue[i].port == 5 and self._in_queue.queue[i].channel == 0 and bytes(self._in_queue.queue[i].data) == %s '
+            'for i in range(self._in_queue.qsize()))' % _pay('R0 + i'),
+            # link error: exactly at the N-th consecutive unacknowledged transmission
+            'self._retry_before_disconnect == N - L',
+            "len(sent('link_error')) == (1 if expect_report else 0)",
+            'WAIT == 0 or WAIT == 0.01',
+        ]
+        import re
+        invariant = [re.sub(r'\bFRAME\b', FRAME, re.sub(r'\bWAIT\b', WAIT, x)) for x in invariant]
+
+        def havoc(I, fr):
+            for nm in ('S', 'A', 'J', 'L', 'R0', 'Q'):
+                c.ns[nm] = I.fresh_int(nm, 0)
+            c.ns['E'], c.ns['G'] = I.fresh_int('E', 0, 1), I.fresh_int('G', 0, 1)
+            c.ns['ok'], c.ns['expect_report'] = True, False
+            del I.trace[:]
+            c.set(th, '_curr_up', I.fresh_int('up', 0, 1)), c.set(th, '_curr_down', I.fresh_int('down', 0, 1))
+            c.set(th, '_retry_before_disconnect', I.fresh_int('retry'))
+            for nm in assigned:
+                fr.vars[nm] = None                      # set in every iteration before it is read
+            for nm in counters:
+                fr.vars[nm] = I.fresh_int(nm)
+            fr.vars[WAIT] = I.fresh_float(WAIT)
+            n = c.choice('frame_in_flight', [1, 3])
+            fr.vars[FRAME] = PBytearray([I.fresh_int(FRAME, 0, 255) for _ in range(n)])
+            del inq.items[:]
+            del outq.items[:]
+            if c.choice('packet_waiting', [False, True]):
+                outq.items.append(new_packet('S - 1'))
+        c.loop_invariant(RD + ':_RadioDriverThread.run', lineno, invariant, havoc, assigned)
+    c.call((th, 'run'))
+    c.invoke(RD + ':set_retries_before_disconnect', 100)
+    # the native back end (and a symbolic path that leaves the loop) sees the end of a concrete run from the start: same ghost bookkeeping
+    c.ensure('run-ends-by-the-script', "raised == 'StopLoop'")
+    c.ensure('every-taken-frame-was-the-next-packet', 'ok')
+    c.ensure('taken-all-but-those-on-the-host-side', 'S - 2 <= A <= S')
+    c.ensure('received-in-step-with-the-peer', 'J <= R0 + drv.in_queue.qsize() <= J + 1')
+
+
+@contract('C01', 'crazyradio.init', [CR + ':Crazyradio.__init__', CR + ':Crazyradio.set_power', CR + ':Crazyradio.set_arc', CR + ':Crazyradio.set_ard_bytes',
+                                     CR + ':Crazyradio.set_cont_carrier', CR + ':Crazyradio.set_ack_enable', CR + ':Crazyradio.set_address',
+                                     CR + ':_send_vendor_setup'],
+          clause='an acknowledgement means what the radio loop takes it to mean only if the dongle was opened with acknowledgements enabled, carrier test '
+                 'mode off and payload-carrying acks (32 bytes); after opening, the settings the driver believes the dongle has (its cache) are the '
+                 'ones it requested, so that the first frame of a link goes out with that link\'s settings',
+          bounded='firmware version 0.53 or 0.3 (symbolic choice); the USB device is a stub')
+def crazyradio_init(c):
+    c.patch(CR + ':usb', c.ext('usb', attrs={'TYPE_VENDOR': 0x40}))
+    c.patch(CR + ':platform', c.ext('platform', returns={'system': 'Linux'}))
+    new = c.choice('firmware', [0x0053, 0x0030])
+    dev = c.ext('dev', attrs={'bcdDevice': new})
+    radio = c.new(CR + ':Crazyradio', dev)
+    c.let('radio', radio)
+    c.ensure('opened', 'radio is not None')
+    c.snapshot('req', "tuple((e[1][1], e[2]['wValue'], e[2]['data_or_wLength']) for e in sent('dev.ctrl_transfer'))")
+    c.ensure('cache-is-what-was-requested', 'radio.current_channel == [r[1] for r in req if r[0] == 0x01][-1] and '
+             'radio.current_datarate == [r[1] for r in req if r[0] == 0x03][-1]')
+    if new >= 0x0040:
+        c.ensure('acks-enabled-last', '[r[1] for r in req if r[0] == 0x10][-1] == 1')
+        c.ensure('carrier-test-off', '[r[1] for r in req if r[0] == 0x20][-1] == 0')
+        c.ensure('ack-payload-enabled', '[r[1] for r in req if r[0] == 0x05][-1] == (0x80 | 32)')
+        c.ensure('address-cache', 'tuple(radio.current_address) == tuple([r[2] for r in req if r[0] == 0x02][-1])')
+        c.ensure('arc-known', 'radio.arc == [r[1] for r in req if r[0] == 0x06][-1]')
+
+
+@contract('C01', 'no-safelink.frames-untouched', [RD + ':_RadioDriverThread.run', RD + ':RadioDriver.send_packet'],
+          clause='safelink is used only if the peer confirmed it during link start-up: after ten unconfirmed requests the frames go to the dongle exactly '
+                 'as submitted (header bits 2 and 3 as the packet has them, no alternating bits), a later echo of the request in the downlink does '
+                 'not switch safelink on, and the upper layer keeps doing its own retries',
+          bounded='peer that acknowledges everything without ever confirming; 3 transmissions after the ten requests, one uplink packet; the second '
+                  'acknowledgement carries the bytes ff 05 01')
+def no_safelink(c):
+    stop = c.raiser('StopLoop')
+    up = c.new(STK + ':CRTPPacket', 0x30, c.bytes('u0', 2))
+    drv = c.new(RD + ':RadioDriver')
+    inq, outq = c.queue('inq'), c.queue('outq', maxsize=1)
+    c.set(drv, 'in_queue', inq), c.set(drv, 'out_queue', outq)
+    st = {'t': 0}
+
+    def send(_i, args, _k):
+        st['t'] += 1
+        t = st['t'] - 10
+        if t <= 0:
+            return mk_ack(c, True, ())
+        if t > 3:
+            return stop()
+        c.let('frame', args[0])
+        c.snapshot('tx%d' % t, 'bytes(frame)')
+        if t == 1:
+            c.invoke((drv, 'send_packet'), up)
+        return mk_ack(c, True, c.snapshot('echo', 'bytes([0xff, 0x05, 0x01])') if t == 2 else ())
+    radio = c.ext('radio', returns={'send_packet': send})
+    th = c.new(RD + ':_RadioDriverThread', radio, inq, outq, None, c.ext('link_error'), drv, None)
+    c.set(th, '_radio_link_statistics', c.ext('stats'))
+    c.let('th', th), c.let('drv', drv), c.let('up', up)
+    c.call((th, 'run'))
+    c.ensure('loop-runs', "raised == 'StopLoop'")
+    c.ensure('never-confirmed-never-used', 'th._has_safelink is False and drv.needs_resending is True')
+    c.ensure('null-frame-untouched', 'tx1 == bytes([0xFF]) and tx3 == bytes([0xFF])')
+    c.ensure('packet-frame-untouched', 'tx2 == bytes([up.header]) + bytes(up.data) and (tx2[0] & 0x0C) == 0x0C')
+
+
+@contract('C01', 'delivery.after-idle',
+          [RD + ':_RadioDriverThread.run', RD + ':_RadioDriverThread._send_packet_safe', RD + ':RadioDriver.send_packet', RD + ':RadioDriver.receive_packet'],
+          clause='exactly once and in order also when the link has been idle for a long time (the loop then polls more slowly): packets submitted and '
+                 'packets queued by the Crazyflie after more than ten empty exchanges are delivered once each, in order',
+          bounded='loss-free link; 13 empty exchanges, then two uplink packets and, two transmissions later, two downlink packets (symbolic payloads) within 6 transmissions')
+def after_idle(c):
+    ups = [c.new(STK + ':CRTPPacket', 0x30 | i, c.bytes('u%d' % i, 2)) for i in range(2)]
+    c.bytes('D0', 3), c.bytes('D1', 3)
+    peer = Peer(c, [])
+    stop = c.raiser('StopLoop')
+    drv = c.new(RD + ':RadioDriver')
+    inq, outq = c.queue('inq'), c.queue('outq', maxsize=1)
+    c.set(drv, 'in_queue', inq), c.set(drv, 'out_queue', outq)
+    errs = c.ext('link_error')
+    c.set(drv, 'link_error_callback', errs)
+    st = {'t': 0, 'submitted': 0}
+
+    def send(_i, args, _k):
+        t = st['t']
+        st['t'] += 1
+        if t > 19:
+            return stop()
+        if t == 16:
+            peer.downs.extend(['D0', 'D1'])         # the Crazyflie has something to say again, later than the application
+        if t >= 14 and st['submitted'] < 2 and len(outq.items) == 0:
+            c.invoke((drv, 'send_packet'), ups[st['submitted']])
+            st['submitted'] += 1
+        return peer.handle(args[0], 'acked')
+    radio = c.ext('radio', returns={'send_packet': send})
+    th = c.new(RD + ':_RadioDriverThread', radio, inq, outq, None, errs, drv, None)
+    c.set(th, '_radio_link_statistics', c.ext('stats'))
+    c.call((th, 'run'))
+    c.ensure('loop-survives', "raised == 'StopLoop'")
+    c.let('na', len(peer.accepted)), c.let('ups', tuple(ups))
+    c.ensure('both-uplink-packets-once-in-order', 'na == 2 and all((a[0] & 0xF3) == (p.header & 0xF3) and bytes(a[1:]) == bytes(p.data) for a, p in ((acc0, ups[0]), (acc1, ups[1])))'
+             if len(peer.accepted) == 2 else 'na == 2')
+    for j in range(2):
+        c.call((drv, 'receive_packet'), 0)
+        c.ensure('downlink-%d-once-in-order' % j, 'result is not None and result.port == (D%d[0] >> 4) and result.channel == (D%d[0] & 3) and bytes(result.data) == D%d[1:]' % (j, j, j))
+    c.call((drv, 'receive_packet'), 0)
+    c.ensure('nothing-else-received', 'result is None')
+    c.ensure('no-link-error', "len(sent('link_error')) == 0")
